@@ -219,9 +219,9 @@ def r4(ctx):
 @rule("C16", "R5", "FLOW", "Theta_k and S_k in the BIC come from one state: the one the last round fitted and relabelled")
 def r5(ctx):
     from . import c09
-    c09.lifecycle(ctx, {"fit-pairs"})   # no statistics refresh between the last fit and the BIC (inside or after the loop)
+    c09.lifecycle(ctx, {"fit-pairs", "bic-state"})   # no statistics refresh between the last fit and the BIC; BIC and labels of one state
     from . import c14, c20
-    ctx.sub(c14.r2, only=("producer:", "consumer:"))   # MRF k is the optimiser's result for cluster k's covariance (ordered gather)
+    ctx.sub(c14.r2, only=("producer:", "consumer:", "unordered:"))   # MRF k is the optimiser's result for cluster k's covariance (ordered gather)
     ctx.sub(c20.r2, only=("get:",))   # a failed task is never papered over by keeping the previous MRF
 
 
